@@ -343,3 +343,32 @@ def c12(res):
                    "the crossorigin and sandbox passes of sanitizeAttrs and RequireSandboxOnIFrame", RULE_ATTRS +
                    "; generator: media/iframe elements, sandbox subsets (empty, full, the 14 singletons, random), repeated attributes, unknown tokens, mixed white space",
                    thorough_runs=[ATTRS_T("forced")])
+
+
+@check("C02")
+def c02(res):
+    return generic(res, "C02", "Properties/C02.v", [ATTRS("general"), LOOP, SAN(40, 40), FN], "C02",
+                   "the attribute filter of sanitizeAttrs, isDataAttribute and the bare-element rule of the token loop",
+                   RULE_ATTRS + "; generator: random policies (element / pattern / global rules, overlapping patterns, data attributes, style rules) x attribute lists from the policy's own vocabulary",
+                   thorough_runs=[ATTRS_T("general"), LOOP_T, SAN(200, 80), FN])
+
+
+@check("C03")
+def c03(res):
+    return generic(res, "C03", "Properties/C03.v", [("corr-url", ["url"]), ATTRS("general"), ("corr-dump", ["dump", "-n", "40"])], "C03",
+                   "validURL, the URL switch of sanitizeAttrs, linkable() and the builder options that imply URL checking",
+                   "theorems over the model of validURL / the URL pass with net/url as an oracle; generated position tables re-checked; tie: VerifValidURL vs the "
+                   "extracted model on a URL corpus (obfuscated schemes, leading C0/space, embedded TAB/LF, backslashes, opaque, scheme-relative, percent escapes, userinfo, IPv6) "
+                   "x 8 scheme/relative/custom-policy configurations, sanitizeAttrs on random policies, builder dumps; oracle: WHATWG scheme extraction on the real output at the 15 positions; "
+                   "the net/url hypotheses are monitored on every parse. non-trivial = accepted URLs / changed attribute lists",
+                   thorough_runs=[("corr-url", ["url", "-n", "5000"]), ATTRS_T("general"), ("corr-dump", ["dump", "-n", "300"])])
+
+
+@check("C10")
+def c10(res):
+    return generic(res, "C10", "Properties/C10.v", [("corr-style", ["style"]), FN, ATTRS("general")], None,
+                   "sanitizeStyles, removeUnicode and the style routing of sanitizeAttrs",
+                   "theorems over the model of sanitizeStyles with douceur as an oracle; tie: VerifSanitizeStyles / VerifRemoveUnicode vs the extracted model on style strings "
+                   "(mixed allowed/disallowed declarations, vendor prefixes incl. stacked, upper case, numeric and character escapes, !important, comments, malformed tails) x rule sets in "
+                   "all three scopes with handler / enum / regexp / default matchers; non-trivial = style strings of which something is kept",
+                   thorough_runs=[("corr-style", ["style", "-n", "3000"]), FN, ATTRS_T("general")])
